@@ -126,5 +126,5 @@ def bounded(run, c, spec):
     if fails:
         s, got, exp = fails[0]
         run.violation("bounded:parse_nvra", "legal NVRA parsed to intended parts", "%r -> %r, intended %r" % (s, got, exp),
-                      "import productmd.common as C\ngot = C.parse_nvra(%r)\nprint(got)\n"
+                      "import productmd.common as C\ntry:\n got = C.parse_nvra(%r)\nexcept Exception as ex:\n got = 'raises %%s' %% type(ex).__name__\nprint(got)\n"
                       "if got != %r: REPRODUCED('parse_nvra returns %%r' %% (got,))\nNOT_REPRODUCED()\n" % (s, exp))
